@@ -6,6 +6,8 @@ McView == <<pe, ke, sol, buffer, below, h>>
 OneSplit == \/ act'.op \in {"init", "scoped_init", "synthesis"}
             \/ res'.k = "rejected"
             \/ ke'[act'.i] = 0
+\* (export only) prepared states within two reactions of an initial state
+Shallow == TLCGet("level") <= 5
 PrintEdge == (act'.op \in {"init", "scoped_init", "on_wall", "decompose", "intermolecular", "synthesis"} /\ OneSplit) =>
                 PrintT(<<"EDGE", ToJson([from |-> [pe |-> pe, ke |-> ke, sol |-> sol, buffer |-> buffer, below |-> below], act |-> act', res |-> res'])>>)
 =============================================================================
